@@ -343,3 +343,47 @@ def rule_labeling_family(P):
                        "`%s` (family %s) is constructed for forests labelled %s: edge values are combined with the wrong algebra" % (tyn, "/".join(sorted(fam)), "/".join(sorted(lab))), k.line))
     R.require_floor(70, "family-typed instantiations in operation factories")
     return R
+
+
+_CONV_CALLS = {"copyInto", "getValueFromHandle", "handleForValue", "getEdgeForValue"}
+_SCALAR_FAM = {"_Bool": "BOOLEAN", "bool": "BOOLEAN", "int": "INTEGER", "long": "INTEGER", "float": "REAL", "double": "REAL"}
+_CASE_FAM = {"BOOLEAN": "BOOLEAN", "INTEGER": "INTEGER", "REAL": "REAL", "INT": "INTEGER", "LONG": "INTEGER", "FLOAT": "REAL", "DOUBLE": "REAL"}
+
+
+def rule_case_scalar(P):
+    """value conversion between forests goes through a scalar local chosen per terminal / range / edge type: under `case BOOLEAN` the value is read and
+    written as a bool (non-zero → true happens on the *source* value), under INTEGER as an integer, under REAL as a real.  Reading a real or a
+    long into an int first and converting that (seed C10b) loses 0.5 → false and 2^32 → false"""
+    R = RuleResult("dispatch.case-scalar", "every copyInto / getValueFromHandle / handleForValue / getEdgeForValue call under a case of a terminal_type / range_type / edge_type switch passes a scalar of that case's family (bool / integer / floating)")
+    seen = set()
+    for f in sorted(P.fns.values(), key=lambda f: (f["file"], f["line"], f["inst"])):
+        if not f.get("cfg") or not f["file"].startswith(("operations/", "dd_edge.cc", "forest.cc", "minterms.cc")):
+            continue
+        g = None
+        for b in f["cfg"]["blocks"]:
+            for e in b["ev"]:
+                if e["k"] != "call" or not e["q"].startswith(M) or e["q"].split("::")[-1] not in _CONV_CALLS:
+                    continue
+                if g is None:
+                    g = Graph(f)
+                node = next(k for k in g.nodes if k.ev is e)
+                cases = [t for t, a in _context(g, node) if a == "case"]
+                fam = {_CASE_FAM[m.group(2)] for t in cases for m in re.finditer(r"(terminal_type|range_type|edge_type)::(\w+)", t) if m.group(2) in _CASE_FAM}
+                sc = {_SCALAR_FAM[w] for w in re.findall(r"\b(_Bool|bool|int|long|float|double)\b", e.get("sig", "").replace("unsigned int", "").replace("unsigned long", ""))}
+                if not fam or not sc:
+                    continue
+                key = (f["file"], e["line"], e["q"], tuple(sorted(fam)))
+                if key in seen:
+                    continue
+                seen.add(key)
+                R.functions.add(f["inst"])
+                R.paths += 1
+                nm = e["q"].split("::")[-1]
+                iid = "%s: %s%s under %s" % (base_name(f["q"]).replace(M, "")[:50], nm, e.get("sig", "")[:40], "/".join(sorted(fam)))
+                if sc <= fam:
+                    R.ok(iid, where(f, e["line"]))
+                else:
+                    R.fail(iid, where(f, e["line"]), Finding(R.rule, f["file"], base_name(f["q"]), "%s%s@%s" % (nm, re.sub(r"\s+", "", e.get("sig", ""))[:30], "/".join(sorted(fam))),
+                           "under %s the value passes through a %s scalar (%s%s): the conversion the case stands for is applied to an already narrowed value" % ("/".join(sorted(fam)), "/".join(sorted(sc)).lower(), nm, e.get("sig", "")), e["line"], inst=f["inst"]))
+    R.require_floor(14, "value conversions under a type case")
+    return R
